@@ -28,6 +28,12 @@ which regenerates the payloads and re-checks the digests independently):
   d    received is a prefix of sent (both directions); exactly one connectionLost per protocol; the
        aborting side's reason is ConnectionAborted (documented meaning of error.ConnectionAborted; DESIGN C15); the
        peer's reason is not constrained; nothing after connectionLost.
+connectionLost "exactly once" also means "not zero times".  On real sockets only time can tell, so
+there is ONE generous wall-clock verdict (like C13's idle bound): when the exchange is logically
+complete - one side got its connectionLost, each side received every byte the other had to send and
+both finished their writes - and the reactor provably kept iterating (>= 40 ticks of a 0.25 s
+ticker), a side whose connectionLost has still not been called 20 s later is reported as
+`connectionlost-never-called`.  Every other time-out stays inconclusive.
 Guards: a connection that does not finish before the in-child watchdog, a failed connect, or a
 subprocess timeout are INCONCLUSIVE (no verdict depends on time).
 """
@@ -57,6 +63,8 @@ WATCHDOG_S = {"quick": 600, "thorough": 3000}
 READY = True
 
 CONCURRENCY = 8
+NEVER_LOST_BOUND_S = 20.0
+NEVER_LOST_MIN_TICKS = 40
 
 
 def gen_data(seed, role, total):
@@ -66,6 +74,7 @@ def gen_data(seed, role, total):
 # ------------------------------------------------------------------------------------------ child
 def scenario(reactor, inp):
     import socket
+    import time
 
     from twisted.internet import protocol
     from twisted.internet.interfaces import IHalfCloseableProtocol
@@ -244,6 +253,8 @@ def scenario(reactor, inp):
             self.sides = {"client": cls(self, "client"), "server": cls(self, "server")}
             self.finished = False
             self.failed = None
+            self.never_lost = None
+            self.complete_since = None
             sf = protocol.ServerFactory()
             sf.buildProtocol = lambda addr: self.accept()
             self.port = reactor.listenTCP(0, sf, interface="127.0.0.1", backlog=5)
@@ -281,8 +292,26 @@ def scenario(reactor, inp):
             state["done"].append(self)
             pump()
 
+        def check_never_lost(self, now, ticks):
+            """The one wall-clock verdict of C15 (see module docstring)."""
+            if self.finished or self.failed:
+                return
+            a = [x for x in self.sides.values() if x.lost]
+            b = [x for x in self.sides.values() if not x.lost]
+            if len(a) != 1 or not b[0].made:
+                return
+            a, b = a[0], b[0]
+            complete = a.rx == len(b.out) and b.rx == len(a.out) and b.ops_done and a.ops_done
+            if not complete:
+                return
+            if self.complete_since is None:
+                self.complete_since = (now, ticks)
+            elif now - self.complete_since[0] >= NEVER_LOST_BOUND_S and ticks - self.complete_since[1] >= NEVER_LOST_MIN_TICKS:
+                self.never_lost = {"side": b.role, "waited_s": round(now - self.complete_since[0], 1), "reactor_ticks_meanwhile": ticks - self.complete_since[1]}
+                self.finish()
+
         def report(self, stuck=False):
-            return {"id": self.spec["id"], "finished": self.finished and not stuck, "failed": self.failed,
+            return {"id": self.spec["id"], "finished": self.finished and not stuck, "failed": self.failed, "never_lost": self.never_lost,
                     "client": self.sides["client"].report(), "server": self.sides["server"].report()}
 
     def pump():
@@ -307,6 +336,18 @@ def scenario(reactor, inp):
         out["problems"] = state["problems"]
         reactor.stop()
 
+    ticks = {"n": 0}
+
+    def tick():
+        # evidence that the reactor keeps iterating + the exchange-complete-but-never-notified check
+        ticks["n"] += 1
+        now = time.monotonic()
+        for c in list(conns.values()):
+            c.check_never_lost(now, ticks["n"])
+        if not out:
+            reactor.callLater(0.25, tick)
+
+    reactor.callLater(0.25, tick)
     reactor.callLater(inp["watchdog"], stop, True)
     reactor.callWhenRunning(pump)
     reactor.run()
@@ -506,6 +547,15 @@ def judge(ctx, name, batch, out):
         if rep["failed"]:
             ctx.inconclusive("C15 %s: connect failed for conn %s: %s" % (name, rep["id"], rep["failed"]))
             continue
+        if rep.get("never_lost"):
+            nl = rep["never_lost"]
+            ctx.count("conns_decided")
+            ctx.count("decided_" + name)
+            ctx.evaluated()
+            ctx.violation("connectionlost-never-called", "the exchange was complete (the peer received every byte and got its connectionLost) and the reactor "
+                          "kept iterating, but this side's connectionLost had not been called %.0f s later" % NEVER_LOST_BOUND_S,
+                          {"reactor": name, "spec": spec, "never_lost": nl, "client": rep["client"], "server": rep["server"]})
+            continue
         if not rep["finished"]:
             ctx.count("conns_unfinished")
             ctx.sample({"unfinished": True, "reactor": name, "spec_kind": spec["kind"], "report": rep}, limit=5)
@@ -525,7 +575,7 @@ def run(ctx):
     from vf.engines import reactorproc
 
     mine = [(k, name, batch) for (k, name, batch) in plan(ctx) if ctx.owns(k)]
-    wd = 60 if ctx.quick else 900
+    wd = 90 if ctx.quick else 900
     jobs = [(name, "vf.props.c15", {"conns": batch, "concurrency": CONCURRENCY, "watchdog": wd}) for (_, name, batch) in mine]
     outs = reactorproc.run_scenarios(jobs, timeout=wd + 60, max_parallel=4)
     for (k, name, batch), out in zip(mine, outs):
